@@ -262,3 +262,107 @@ def build():
     C.assume("Light._schedule_update, _get_color_and_fade, _get_color_and_target_time, gamma/colour correction and the "
              "batch light system are not yet under contract (the stack invariant and the back-end contracts are)")
     return C
+
+
+BLS = "mpf/core/platform_batch_light_system.py"
+
+
+def build_extra():
+    """PlatformBatchLightSystem._send_update_batch: the redundant-update skip is sound only if last_state records what
+    the hardware was told last (BOUNDED: batches of 2 lights)"""
+    C = ContractSet("C09", "batch light system: hardware state bookkeeping")
+    B = "BOUNDED: batches of at most 2 lights"
+
+    def hw(I):
+        return I.__dict__.setdefault("c09_hw", {})
+
+    def hw_get(I, light):
+        d = hw(I)
+        if light not in d:
+            d[light] = z3.Real("hw0[%s]" % light.name)
+        return d[light]
+    C.cls("PlatformBatchLight", fields={})
+
+    def gfb(I, env, a, k):
+        nm = I.fresh_name("fb")
+        b, f, dn = z3.Real(nm + ".brightness"), z3.Int(nm + ".fade_ms"), z3.Bool(nm + ".done")
+        I.ctx.assume(f >= 0)
+        emit(I, "get_fade", light=env["self"].ref, brightness=VReal(b), done=VBool(dn))
+        return VTuple([VReal(b), VInt(f), VBool(dn)])
+    C.ext("PlatformBatchLight.get_fade_and_brightness", model=gfb,
+          trusted_reason="the light's current fade chunk: (brightness to send, fade_ms, done)")
+    C.cls("AsyncEvent", fields={})
+    C.ext("AsyncEvent.set", model=common.noop, trusted_reason="wakes the scheduler task")
+    C.cls("SortedList", fields={})
+    C.ext("SortedList.add", model=lambda I, env, a, k: (emit(I, "schedule.add", item=a[0]), NONE)[1],
+          trusted_reason="sortedcontainers.SortedList")
+    C.ext("SortedList.__getitem__", model=lambda I, env, a, k: VTuple([VReal(z3.Real(I.fresh_name("sched_t"))), NONE]),
+          trusted_reason="sortedcontainers.SortedList")
+    C.ext("SortedList.__len__", model=lambda I, env, a, k: VInt(z3.Int("n_scheduled")),
+          trusted_reason="sortedcontainers.SortedList")
+    C.cls("ClockBase", fields={})
+    C.ext("ClockBase.get_time", model=lambda I, env, a, k: VReal(z3.Real(I.fresh_name("now"))), trusted_reason="clock")
+
+    def lights2(I, name):
+        n = 1 + I.ctx.fork(2)
+        return I.new_list([VObj(Obj("PlatformBatchLight", ObjS("PlatformBatchLight", {}), "light%d" % i))
+                           for i in range(n)], name)
+
+    def last_state(I, name):
+        """per light of the batch: no record, or (brightness, time) - with the invariant G: the recorded brightness is
+        what the hardware was told last"""
+        lights = I.container(I.force(I.frames[0].env["sequential_lights"]).ref).items
+        ents = []
+        for l in lights:
+            if I.ctx.fork(2):
+                b = hw_get(I, l.ref)
+                ents.append((l, VTuple([VReal(b), VReal(z3.Real("last_t[%s]" % l.ref.name))])))
+        return I.new_dict(ents, name)
+    C.cls("PlatformBatchLightSystem", file=BLS, fields=dict(
+        dirty_schedule=ObjS("SortedList"), clock=ObjS("ClockBase"), schedule_changed=ObjS("AsyncEvent"),
+        update_callback=Fn, max_batch_size=Int, last_state=Init(last_state)))
+
+    def on_cb(I, fn, args, kwargs):
+        """update_callback(batch): the hardware is told each (light, brightness, fade) of the batch"""
+        for it in I.container(I.force(args[0]).ref).items:
+            t = I.force(it)
+            l, b = I.force(t.items[0]), I.force(t.items[1])
+            hw(I)[l.ref] = b.t if b.tag == "real" else z3.ToReal(b.t)
+            emit(I, "hw.update", light=l.ref, brightness=b)
+        return NONE
+    C.helpers["on_opaque_call"] = on_cb
+
+    def bookkeeping_ok(I):
+        """G: for every light of the batch, a last_state record holds the brightness the hardware was told last"""
+        this = I.frames[0].env["self"].ref
+        ls = I.container(I.force(I.read_field(this, "last_state")).ref)
+        out = []
+        for k, v in ls.entries:
+            v = I.force(v)
+            b = I.force(v.items[0])
+            out.append((b.t if b.tag == "real" else z3.ToReal(b.t)) == hw_get(I, k.ref if isinstance(k, VObj) else k))
+        return VBool(z3.And(*out) if out else z3.BoolVal(True))
+    C.helpers["bookkeeping_ok"] = bookkeeping_ok
+
+    def hardware_current(I):
+        """every light of the batch that reported a value now has it on the hardware (sent now, or skipped because
+        the hardware already had it)"""
+        out = []
+        for e in events_named(I, "get_fade"):
+            out.append(hw_get(I, e.args["light"]) == I.force(e.args["brightness"]).t)
+        return VBool(z3.And(*out) if out else z3.BoolVal(True))
+    C.helpers["hardware_current"] = hardware_current
+    C.trace_helpers = {"hardware_current"}
+    C.fn("PlatformBatchLightSystem._send_update_batch",
+         params=dict(sequential_lights=Init(lights2), max_fade_tolerance=Int),
+         requires=[("max batch size", "self.max_batch_size >= 1")],
+         loops={0: LoopSpec(invariant=[], unroll=True)},
+         ensures=[("H1: after the batch the hardware has, for every light of the batch, the brightness the light "
+                   "reported - a light is skipped only when the hardware already has it", "hardware_current()"),
+                  ("G: last_state records what the hardware was told last (this is what makes skipping sound)",
+                   "bookkeeping_ok()")],
+         modifies=["self.last_state", "self.last_state.**"], raises={}, bounded=B)
+    C.assume("the batch light system is checked for batches of 1-2 lights with one fade chunk each; the scheduler and "
+             "sender tasks (_schedule_updates, _send_updates) are not under contract")
+    C.only_verify = ["PlatformBatchLightSystem._send_update_batch"]
+    return [C]
